@@ -117,6 +117,8 @@ Section Rel.
   Qed.
   Lemma sim_fstep : forall n cf cf' r, fstep p cf = FNext cf' -> sim n cf' r -> sim (S n) cf r.
   Proof. intros n cf cf' r Hs H out o Hr F. rewrite (frun_next p n cf cf' out Hs) in Hr. exact (H out o Hr F). Qed.
+  Lemma sim_fstep_inv : forall n cf cf' r, fstep p cf = FNext cf' -> sim (S n) cf r -> sim n cf' r.
+  Proof. intros n cf cf' r Hs H out o Hr F. rewrite <- (frun_next p n cf cf' out Hs) in Hr. exact (H out o Hr F). Qed.
   Lemma sim_cstep : forall n cf c, sim n cf (cstep cp c) -> sim n cf (SNext c).
   Proof.
     intros n cf c H out o Hr F. destruct (H out o Hr F) as [m Hm]. exists (S m).
